@@ -67,6 +67,7 @@ func (fr *Frame) execInstr(st *State, instr ssa.Instruction) {
 		}
 		p := fr.val(st, x.Addr)
 		fr.nonNil(st, p, x.Pos(), "store")
+		fr.atStore(st, p, x.Pos())
 		fc.storeVal(st, p, elemTypeOfPtr(x.Addr.Type()), v)
 	case *ssa.UnOp:
 		fr.unop(st, x)
@@ -734,4 +735,99 @@ func highMask8(a, b ssa.Value) (v, s ssa.Value, ok bool) {
 		return
 	}
 	return try(b, a)
+}
+
+// atStore checks the "atstore Type requires ..." clauses of the function under verification:
+// whenever the stored-to address lies inside an object of the named struct type (one of its
+// fields, or an element of one of its array fields), the clause must hold for that object ($p).
+func (fr *Frame) atStore(st *State, p Term, pos token.Pos) {
+	fc := fr.fc
+	top := fr
+	if fr.spec == nil || len(fr.spec.AtStores) == 0 {
+		return
+	}
+	for tname, cls := range top.spec.AtStores {
+		// field ids of the struct type
+		var fids []int
+		for id, fi := range fc.w.fidRev {
+			if fi.owner == tname || strings.HasSuffix(fi.owner, "_"+tname) {
+				fids = append(fids, id)
+			}
+		}
+		if len(fids) == 0 {
+			fc.unsupp(pos, "atstore: unknown struct type %s", tname)
+			continue
+		}
+		var ownerT types.Type
+		for _, fi := range fc.w.fidRev {
+			if fi.owner == tname || strings.HasSuffix(fi.owner, "_"+tname) {
+				ownerT = fi.ownerT
+				break
+			}
+		}
+		inSet := func(e string) string {
+			var alts []string
+			for _, f := range fids {
+				alts = append(alts, fmt.Sprintf("(= %s %d)", e, f))
+			}
+			if len(alts) == 1 {
+				return alts[0]
+			}
+			return "(or " + strings.Join(alts, " ") + ")"
+		}
+		type cand struct {
+			cond  Term
+			owner Term
+		}
+		var cands []cand
+		switch {
+		case p.Sh != nil && p.Sh.Kind == 'f':
+			isOf := false
+			for _, f := range fids {
+				if f == p.Sh.Fid {
+					isOf = true
+				}
+			}
+			if isOf {
+				cands = append(cands, cand{tBool(true), p.Sh.Base})
+			}
+		case p.Sh != nil && p.Sh.Kind == 'e':
+			arr := p.Sh.Base
+			if arr.Sh != nil && arr.Sh.Kind == 'f' {
+				for _, f := range fids {
+					if f == arr.Sh.Fid {
+						cands = append(cands, cand{tBool(true), arr.Sh.Base})
+					}
+				}
+			} else if arr.Sh == nil {
+				c := mk(fmt.Sprintf("(and (is_PField %s) %s)", arr.S, inSet("(pf_fid "+arr.S+")")), SBool, nil)
+				cands = append(cands, cand{c, mk(fmt.Sprintf("(pf_base %s)", arr.S), SPtr, nil)})
+			}
+		case p.Sh != nil && p.Sh.Kind == 'o':
+		default:
+			c1 := mk(fmt.Sprintf("(and (is_PField %s) %s)", p.S, inSet("(pf_fid "+p.S+")")), SBool, nil)
+			cands = append(cands, cand{c1, mk(fmt.Sprintf("(pf_base %s)", p.S), SPtr, nil)})
+			c2 := mk(fmt.Sprintf("(and (is_PElem %s) (is_PField (pe_arr %s)) %s)", p.S, p.S, inSet("(pf_fid (pe_arr "+p.S+"))")), SBool, nil)
+			cands = append(cands, cand{c2, mk(fmt.Sprintf("(pf_base (pe_arr %s))", p.S), SPtr, nil)})
+		}
+		for _, cd := range cands {
+			owner := cd.owner
+			owner.T = types.NewPointer(ownerT)
+			for k, cl := range cls {
+				env := &Env{fc: fc, fr: fr, st: st, old: fr.top().entry, vars: map[string]Term{"$p": owner}, pkgName: fr.fn.Pkg.Pkg.Name(), at: fr.curBlock}
+				t, err := fc.evalGoal(env, cl)
+				if err != nil {
+					fc.unsupp(pos, "atstore %s: %v", tname, err)
+					continue
+				}
+				fr.callCount["atstore:"+tname]++
+				lbl := fmt.Sprint(k + 1)
+				if cl.Label != "" {
+					lbl = cl.Label
+				}
+				name := fmt.Sprintf("atstore.%s@all.site%d.%s", tname, fr.callCount["atstore:"+tname], lbl)
+				fc.addObligation(st, "ownership", fr.oblName(name), tImp(cd.cond, t), pos, cl.Src)
+			}
+		}
+	}
 }
